@@ -155,7 +155,9 @@ pub fn run_seq(ops: &[AOp]) -> SeqOutcome {
                 }));
                 if r.is_err() {
                     violations.push(("C10/gc-panicked".to_string(), format!("op {i} {:?} panicked", op)));
-                    break;
+                    std::mem::forget(app);
+                    std::mem::forget(signals);
+                    return SeqOutcome { violations, gcs, gc_between_drops: gc_between, shape, applied };
                 }
                 gcs += 1;
                 if (0..NENT).any(|e| sh.clones[e] > 0 && dropped_some[e]) {
@@ -219,7 +221,11 @@ pub fn run_seq(ops: &[AOp]) -> SeqOutcome {
             sh.pending.push(e);
         }
     }
-    garbage_collect_entities(app.world_mut());
+    if std::panic::catch_unwind(std::panic::AssertUnwindSafe(|| garbage_collect_entities(app.world_mut()))).is_err() {
+        violations.push(("C10/gc-panicked".to_string(), "the final collection panicked".to_string()));
+        std::mem::forget(app);
+        return SeqOutcome { violations, gcs, gc_between_drops: gc_between, shape, applied };
+    }
     let pend = std::mem::take(&mut sh.pending);
     for e in pend {
         sh.kill_subtree(e);
@@ -319,12 +325,22 @@ pub fn run_threaded(seed: u64, threads: usize, clones_per_entity: usize, use_upd
     loop {
         let finished = handles.iter().all(|h| h.is_finished());
         let post_before: Vec<i64> = (0..NENT).map(|e| post[e].load(Ordering::SeqCst)).collect();
-        if use_update && gcs % 3 == 2 {
-            app.update();
-        } else {
-            garbage_collect_entities(app.world_mut());
-        }
+        let r = std::panic::catch_unwind(std::panic::AssertUnwindSafe(|| {
+            if use_update && gcs % 3 == 2 {
+                app.update();
+            } else {
+                garbage_collect_entities(app.world_mut());
+            }
+        }));
         gcs += 1;
+        if r.is_err() {
+            violations.push(("C10/gc-panicked".to_string(), format!("collection #{gcs} panicked")));
+            for h in handles {
+                let _ = h.join();
+            }
+            std::mem::forget(app);
+            return ThreadOutcome { violations, gcs, gcs_between_first_and_last_drop: between, orderings, drops: 0, clones: 0 };
+        }
         for e in 0..NENT {
             let alive = app.world().get_entity(ents[e]).is_ok();
             let parent_dead = e == 1 && app.world().get_entity(ents[0]).is_err();
@@ -357,7 +373,11 @@ pub fn run_threaded(seed: u64, threads: usize, clones_per_entity: usize, use_upd
     for h in handles {
         let _ = h.join();
     }
-    garbage_collect_entities(app.world_mut());
+    if std::panic::catch_unwind(std::panic::AssertUnwindSafe(|| garbage_collect_entities(app.world_mut()))).is_err() {
+        violations.push(("C10/gc-panicked".to_string(), "the final collection panicked".to_string()));
+        std::mem::forget(app);
+        return ThreadOutcome { violations, gcs, gcs_between_first_and_last_drop: between, orderings, drops: 0, clones: 0 };
+    }
     for e in 0..NENT {
         if app.world().get_entity(ents[e]).is_ok() {
             violations.push(("C10/alive-after-final-gc".to_string(), format!("entity slot {e} survived the collection that followed the drop of all its clones")));
